@@ -39,13 +39,46 @@ theorem handleDcepSt_safe (s : St) (sid : Nat) {Q b n} (hs : s.Ok)
     apply safe_ite <;> intro h2
     · apply safe_pure; exact h _ _ _ rfl
     · split
-      · apply safe_pure
-        apply h
-        unfold St.emit
-        repeat' split
-        all_goals rfl
+      · apply safe_ite <;> intro hcap
+        · apply safe_pure; exact h _ _ _ rfl
+        · apply safe_pure
+          apply h
+          unfold St.emit
+          repeat' split
+          all_goals rfl
       · apply safe_pure; exact h _ _ _ rfl
   · apply safe_pure; exact h _ _ _ rfl
+
+/-- channels are created only here, and never beyond `MAX_DATA_CHANNELS` -/
+theorem handleDcepSt_chans (s : St) (sid : Nat) {Q b n}
+    (h : ∀ s' b' n', s'.chans.length ≤ max s.chans.length c07MaxDataChannels → Q s' b' n') : safe T (handleDcepSt s sid) Q b n := by
+  unfold handleDcepSt
+  apply safe_bind; apply safe_remaining
+  apply safe_ite <;> intro h0
+  · apply safe_pure; exact h _ _ _ (by omega)
+  apply safe_bind; apply safe_peek (by omega); intro mt _
+  apply safe_ite <;> intro h1
+  · apply safe_bind; apply safe_restSlice; intro body _
+    apply safe_bind
+    apply dcepAttempt_safe
+    intro r n'
+    apply safe_ite <;> intro h2
+    · apply safe_pure; exact h _ _ _ (by omega)
+    · split
+      · apply safe_ite <;> intro hcap
+        · apply safe_pure; exact h _ _ _ (by omega)
+        · apply safe_pure
+          apply h
+          unfold St.emit
+          split
+          · omega
+          · rename_i hnc
+            have : ¬ (s.chans.length ≥ c07MaxDataChannels) := by
+              intro hge; apply hcap; exact ⟨hnc, hge⟩
+            show (sid :: s.chans).length ≤ _
+            rw [List.length_cons]; omega
+      · apply safe_pure; exact h _ _ _ (by omega)
+  · apply safe_pure; exact h _ _ _ (by omega)
 
 attribute [local irreducible] handleDcepSt
 
@@ -138,10 +171,8 @@ theorem processBatch_safe (l : List (Nat × Nat × Array UInt8)) (s : St) {Q b n
     apply safe_bind
     apply processData_safe _ _ _ hs (hl e (by simp))
     intro s' n' hs' _
-    apply safe_ite <;> intro hf
-    · apply safe_pure; exact h _ _ hs'
-    · apply ih _ _ (fun x hx => hl x (by simp [hx]))
-      exact hs'
+    apply ih _ _ (fun x hx => hl x (by simp [hx]))
+    exact hs'
 
 attribute [local irreducible] processBatch
 
@@ -160,9 +191,7 @@ theorem handleDataSt_safe (s : St) (flags : Nat) (v : Array UInt8) {Q b n} (hs :
     intro s' n' hs' _
     apply safe_pure
     apply h
-    split
-    · exact hs'
-    · exact hs'
+    exact hs'
   · have hq : QOk (if s.queue.any (fun e => decide (e.1 = tsn)) = true then s.queue else (tsn, flags, v) :: s.queue) := by
       split
       · exact hs
@@ -247,13 +276,11 @@ theorem fwdDrain_safe (s : St) (fuel : Nat) {Q b n} (hf : s.queue.length < fuel)
       apply safe_bind
       apply processData_safe _ _ _ (show St.Ok { s' with queue := s'.queue.filter (fun x => decide (x.1 ≠ u32add s'.cum 1)) } from qok_filter _ hs') (hs' e hmem)
       intro s'' n'' hs'' hq''
-      apply safe_ite <;> intro hfail
-      · apply safe_pure; exact h _ _ _ hs''
-      · apply safe_pure
-        refine ⟨?_, ?_⟩
-        · unfold St.Ok at *; exact hs''
-        · show s''.queue.length < s'.queue.length
-          rw [hq'']; exact hlt
+      apply safe_pure
+      refine ⟨?_, ?_⟩
+      · unfold St.Ok at *; exact hs''
+      · show s''.queue.length < s'.queue.length
+        rw [hq'']; exact hlt
   · exact hs
   · exact hf
 
@@ -376,7 +403,7 @@ theorem runHistory_safe (ps : List Pkt) (s : St) (b : Buf) (n : Nat) (hs : s.Ok)
   | cons p rest ih =>
     unfold runHistory
     apply safe_bind; apply safe_onBuf
-    apply handlePacketSt_safe _ _ (show St.Ok { s with ev := [], failed := false } from hs)
+    apply handlePacketSt_safe _ _ (show St.Ok { s with ev := [] } from hs)
     intro s' b' n' hs'
     dsimp only
     apply safe_bind
